@@ -195,7 +195,7 @@ def _hyp():
         st.tuples(st.just("readinto"), nvals), st.tuples(st.just("read"), st.just(0)), st.tuples(st.just("read"), st.none()),
     ).map(list)
     tail = st.one_of(
-        st.just(["read", None]), st.tuples(st.just("readloop"), nvals).map(list), st.tuples(st.just("read1loop"), nvals).map(list),
+        st.just(["read", None]), st.tuples(st.just("readloop"), nvals).map(list), st.tuples(st.just("read1loop"), st.one_of(nvals, st.none())).map(list),
         st.tuples(st.just("readintoloop"), nvals).map(list), st.tuples(st.just("stream"), st.sampled_from([1, 7, 65536, None, 3, 100])).map(list),
         st.tuples(st.just("read_chunked"), st.sampled_from([None, 1, 2, 5, 40, 1000])).map(list), st.just(["iter", None]), st.just(["data", None]),
     )
